@@ -14,7 +14,10 @@ SUBS = [(r"\bhalfword\b", "W"), (r"\bbyte\b", "W"), (r"\bword\b", "W"),
         (r"UInt(8|16|32)", "UIntW")]
 
 
-def _norm(f) -> str:
+ACCT = ("self.hits", "self.accesses", "self.last_was_hit", "performance_metrics.cycles", "miss_penality")
+
+
+def _norm(f, mode: str = "all") -> str:
     body = [st for st in f.node.body if not (isinstance(st, ast.Expr) and isinstance(st.value, ast.Constant))]
     # drop the word-boundary guard (only the multi-byte variants have / need one)
     body = [st for st in body if not (isinstance(st, ast.If) and "byte_offset" in ast.unparse(st.test)
@@ -24,6 +27,13 @@ def _norm(f) -> str:
     # branch, dropping, adding or altering it does
     lines = []
     for ln in _block(body):
+        is_acct = any(t in ln for t in ACCT) or ln.strip() in ("if not hit:", "if hit:", "if update_statistics:") or ln.strip().startswith("hit =")
+        if mode == "data" and is_acct:
+            continue
+        if mode == "accounting" and not (is_acct or "directly_write_to_lower_memory" in ln or ln.strip().startswith("return")):
+            continue
+        if mode == "data":
+            ln = ln.lstrip()  # nesting under the statistics flag is irrelevant to what is read / written
         for pat, rep in SUBS:
             ln = re.sub(pat, rep, ln)
         lines.append(ln)
@@ -53,15 +63,15 @@ def _block(stmts) -> list[str]:
     return out
 
 
-def sibling_rule(ctx: Ctx, rid: str, groups=None) -> None:
+def sibling_rule(ctx: Ctx, rid: str, groups=None, mode: str = "all") -> None:
     m = ctx.model
     r = ctx.rule(rid, "byte/half-word/word variants of an access method are the same code up to width names")
     groups = groups or [("BaseCacheMemorySystem", "read"), ("WriteBackMemorySystem", "write"), ("WriteThroughMemorySystem", "write")]
     for cn, kind in groups:
         fs = [m.method(cn, f"{kind}_{w}", own=True) for w in ("byte", "halfword", "word")]
-        ref = _norm(fs[2])
+        ref = _norm(fs[2], mode)
         for f in fs[:2]:
-            got = _norm(f)
+            got = _norm(f, mode)
             ok = got == ref
             detail = None
             if not ok:
